@@ -344,7 +344,7 @@ func ruleErrProp(c *Ctx) []Obligation {
 						}
 						// a method of *bytes.Buffer / *strings.Builder called on a value of exactly that static
 						// type: "err is always nil" is part of the method's documentation, whoever owns the buffer
-						if sc := ci.Common().StaticCallee(); sc != nil && (strings.HasPrefix(sc.String(), "(*bytes.Buffer).Write") || strings.HasPrefix(sc.String(), "(*strings.Builder).Write")) {
+						if sc := ci.Common().StaticCallee(); sc != nil && (strings.HasPrefix(sc.String(), "(*bytes.Buffer).Write") || strings.HasPrefix(sc.String(), "(*strings.Builder).Write")) && !strings.HasSuffix(sc.String(), ".WriteTo") {
 							o.add(Discharged, fname(f), construct, ci.Pos(), false, "ignored error of %s (documented to be always nil)", sc.String())
 							continue
 						}
@@ -359,6 +359,11 @@ func ruleErrProp(c *Ctx) []Obligation {
 					continue
 				}
 				o.add(Violated, fname(f), construct, ci.Pos(), true, "the error result is dropped (never read); errors from the writer / file system / renderer must reach the caller")
+				continue
+			}
+			if sc := ci.Common().StaticCallee(); sc != nil && (strings.HasPrefix(sc.String(), "(*bytes.Buffer).Write") || strings.HasPrefix(sc.String(), "(*strings.Builder).Write")) && !strings.HasSuffix(sc.String(), ".WriteTo") {
+				// "err is always nil" is part of these methods' documentation: whatever is done with it is fine
+				o.add(Discharged, fname(f), construct, ci.Pos(), false, "error of %s (documented to be always nil)", sc.String())
 				continue
 			}
 			ok, why := a.handled(e)
